@@ -197,6 +197,13 @@ func shortPos(fset *token.FileSet, p token.Pos) string {
 // Finish applies known findings and floors, writes evidence and replay files,
 // prints the contract lines and returns the exit code.
 func (r *Report) Finish(meta PropMeta, tier string, seed int, kf *KnownFindings, outDir string, start time.Time, cmdline string) int {
+	if pat := os.Getenv("GF_OBLIG"); pat != "" {
+		for _, o := range r.Obs {
+			if strings.Contains(o.Key, pat) {
+				fmt.Fprintf(os.Stderr, "OBLIG %s [%v] %s: %s\n", o.Key, o.Status, o.Pos, o.Detail)
+			}
+		}
+	}
 	// known findings
 	known := map[string]Finding{}
 	for _, f := range kf.Findings {
